@@ -3048,14 +3048,14 @@ class quantized_po2(base_quantizer.BaseQuantizer):  # pylint: disable=invalid-na
     if self.max_value:
       return max(1.0, self.max_value)
     else:
-      return max(1.0, 2**self._max_exp)
+      return max(1.0, 2**int(self._max_exp))
 
   def min(self):
     """Get the minimum value that quantized_po2 can represent."""
     if self.max_value:
       return -max(1.0, self.max_value)
     else:
-      return -max(1.0, 2**self._max_exp)
+      return -max(1.0, 2**int(self._max_exp))
 
   @classmethod
   def from_config(cls, config):
@@ -3223,12 +3223,12 @@ class quantized_relu_po2(base_quantizer.BaseQuantizer):  # pylint: disable=inval
     if self.max_value:
       return max(1.0, self.max_value)
     else:
-      return max(1.0, 2**self._max_exp)
+      return max(1.0, 2**int(self._max_exp))
 
   def min(self):
     """Get the minimum value that quantized_relu_po2 can represent."""
     if self.negative_slope == 0.0:
-      return 2**self._min_exp
+      return 2**int(self._min_exp)
 
     # negative inputs are quantized to -2**e with the same exponent range and
     # max_value clamp as the positive side
